@@ -275,10 +275,11 @@ Definition cellbuffer_from (input : list Z) : res cellbuffer :=
   | None => cellbuffer_of_text input []
   end.
 
-(** [CellBuffer::bounds] gives the bottom-right cell used by [get_size] *)
+(** [CellBuffer::last_occupied]: the bottom-right cell used by [get_size]; a double-width
+    character also occupies the cell to its right *)
 Definition cells_max (cells : list (cell * Z)) : cell :=
   match cells with
   | [] => C 0 0
-  | (c, _) :: t => C (zmax_list (cx c) (map (fun e => cx (fst e)) cells))
+  | (c, z) :: t => C (zmax_list (cx c + char_cols z - 1) (map (fun e => cx (fst e) + char_cols (snd e) - 1) cells))
                      (zmax_list (cy c) (map (fun e => cy (fst e)) cells))
   end.
